@@ -30,15 +30,23 @@ var notStraight = map[string]bool{
 //	   merged into a REP/SEP setter); setter and branch are one unit so that shrinking cannot turn it into a taken branch
 //	R  REP given as raw bytes (EmitBytes C2 mm) followed by AssumeREP(mm): the assembler is told about a width change that
 //	P  SEP likewise (E2 mm, AssumeSEP(mm))                                  it did not emit itself
+//	D  side clones of the emitter in use (sub = the calls made on each; addr = k > 0: clone k is appended back, 0: all of them
+//	   are dropped; args[0] odd: all clones are taken before any is used; args[1] odd: a kept clone's target is just as large
+//	   as the room left in its original): a clone that changes widths (REP / SEP / raw bytes + Assume / r, s = AssumeREP,
+//	   AssumeSEP alone) and is abandoned, second and third clones of the same original; the program goes on in the original
 type acProg struct {
 	initFlags uint8 // assumed widths at the start (bits $20 / $10)
 	calls     []asmOp
 	assume    []int // unused (kept for positional literals)
 	split     int   // > 0: the calls from this index on go into a Clone of the emitter, which is appended back at the end
+	cap       int   // size of the target buffer (acAmple unless the program is meant to fill it up)
+	ccap      int   // size of the clone's target when split > 0
 }
 
+const acAmple = 4096
+
 func (p acProg) String() string {
-	ss := []string{fmt.Sprintf("asm-cpu init=%02x split=%d", p.initFlags, p.split)}
+	ss := []string{fmt.Sprintf("asm-cpu init=%02x split=%d cap=%d ccap=%d", p.initFlags, p.split, p.cap, p.ccap)}
 	for _, o := range p.calls {
 		ss = append(ss, o.String())
 	}
@@ -107,6 +115,8 @@ func expandOp(o asmOp, ms []asmMethod) []acCall {
 		return []acCall{{kind: 'B', data: []byte{0xC2, byte(o.addr)}}, {kind: 'r', mask: byte(o.addr)}}
 	case 'P':
 		return []acCall{{kind: 'B', data: []byte{0xE2, byte(o.addr)}}, {kind: 's', mask: byte(o.addr)}}
+	case 'r', 's':
+		return []acCall{{kind: o.kind, mask: byte(o.addr)}}
 	case 'J':
 		nt, ok := notTaken[o.m.name]
 		if !ok {
@@ -149,62 +159,163 @@ func expandOp(o asmOp, ms []asmMethod) []acCall {
 	return nil
 }
 
+// acEm: one emitter of a program, with what the harness knows about it
+type acEm struct {
+	e      *asm.Emitter
+	cap    int      // size of its target
+	starts []uint32 // PC() before every accepted instruction (and raw REP/SEP) it holds, own calls and appended clones
+}
+
 // runProg assembles with the real Emitter and single-steps both real CPUs; returns a complaint or "".
 func runProg(p acProg, ms []asmMethod, rep *report.Report) (complaint string, steps int) {
-	e := asm.NewEmitter(make([]byte, 4096), false)
+	if p.cap < 0 {
+		p.cap = acAmple
+	}
+	if p.ccap < 0 {
+		p.ccap = acAmple
+	}
+	root := &acEm{e: asm.NewEmitter(make([]byte, p.cap), false), cap: p.cap}
 	base := uint32(acBank)<<16 | 0x8000
-	e.SetBase(base)
-	e.AssumeSEP(asm.Flags(p.initFlags & 0x30))
-	e.AssumeREP(asm.Flags(^p.initFlags & 0x30))
-	var starts []uint32
-	root := e
-	labelled := false
-	for i, o := range p.calls {
-		if p.split > 0 && i == p.split {
-			e = root.Clone(make([]byte, 4096)) // the program is continued in a clone (C16) and appended back below
+	root.e.SetBase(base)
+	root.e.AssumeSEP(asm.Flags(p.initFlags & 0x30))
+	root.e.AssumeREP(asm.Flags(^p.initFlags & 0x30))
+	labelled, dropped := false, false
+	// one emitter call.  full: it was refused because the target has no room for it (the caller recovers and goes on with
+	// something shorter); the rest of a unit is then left out (a branch must not lose the call that makes it fall through)
+	call := func(em *acEm, c acCall) (full bool) {
+		e := em.e
+		pc := e.PC()
+		room := em.cap - e.Len()
+		switch c.kind {
+		case 'I':
+			if (c.m.name == "REP" || c.m.name == "SEP") && room < 2 {
+				// a REP / SEP that is refused for lack of room has changed the tracked widths all the same (noted in DESIGN.md; no
+				// property lists the tracked flags among what a refused call leaves alone): not attempted
+				rep.Count("asm-cpu: REP/SEP left out, no room")
+				return true
+			}
+			m16, x16 := e.IsM16bit(), e.IsX16bit()
+			// does the call fit?  Its length under the tracked widths, from an emitter with plenty of room
+			need := -1
+			fresh := asm.NewEmitter(make([]byte, 8), false)
+			fresh.AssumeSEP(e.Flags())
+			fresh.AssumeREP(^e.Flags())
+			if !callMethod(fresh, *c.m, c.args, c.label) {
+				need = fresh.Len()
+			}
+			refused := callMethod(e, *c.m, c.args, c.label)
+			noRoom := need > room
+			if dep, wide, index := widthDependent(c.m.name); dep && complaint == "" {
+				tracked := m16
+				if index {
+					tracked = x16
+				}
+				if mismatch := wide != tracked; (!refused && mismatch) || (refused && !mismatch && !noRoom) {
+					complaint = fmt.Sprintf("%s (operand of %d bits) was %s while the assembler tracks m16=%v x16=%v",
+						c.m.name, map[bool]int{false: 8, true: 16}[wide], map[bool]string{false: "accepted", true: "refused"}[refused], m16, x16)
+				}
+			}
+			if refused {
+				if noRoom {
+					rep.Count("asm-cpu: call refused, target full")
+					return true
+				}
+				rep.Count("asm-cpu: call refused by width guard")
+				return false // refused by a width guard: nothing emitted
+			}
+			em.starts = append(em.starts, pc)
+		case 'L':
+			if safe(func() { e.Label(c.label) }) {
+				dropped = true // a duplicate label: not a program (C06's business)
+			}
+			labelled = true
+		case 'B':
+			if safe(func() { e.EmitBytes(c.data) }) {
+				if len(c.data) > room {
+					rep.Count("asm-cpu: call refused, target full")
+					return true
+				}
+				dropped = true
+				return true
+			}
+			em.starts = append(em.starts, pc)
+		case 'r':
+			e.AssumeREP(asm.Flags(c.mask))
+		case 's':
+			e.AssumeSEP(asm.Flags(c.mask))
 		}
+		return false
+	}
+	unit := func(em *acEm, o asmOp) {
 		for _, c := range expandOp(o, ms) {
-			pc := e.PC()
-			switch c.kind {
-			case 'I':
-				m16, x16 := e.IsM16bit(), e.IsX16bit()
-				refused := callMethod(e, *c.m, c.args, c.label)
-				if dep, wide, index := widthDependent(c.m.name); dep {
-					tracked := m16
-					if index {
-						tracked = x16
-					}
-					if refused != (wide != tracked) {
-						return fmt.Sprintf("%s (operand of %d bits) was %s while the assembler tracks m16=%v x16=%v",
-							c.m.name, map[bool]int{false: 8, true: 16}[wide], map[bool]string{false: "accepted", true: "refused"}[refused], m16, x16), steps
-					}
-				}
-				if refused {
-					rep.Count("asm-cpu: call refused by width guard")
-					continue // refused by a width guard: nothing emitted
-				}
-				starts = append(starts, pc)
-			case 'L':
-				if safe(func() { e.Label(c.label) }) {
-					return "", steps // a duplicate label: not a program (C06's business)
-				}
-				labelled = true
-			case 'B':
-				if safe(func() { e.EmitBytes(c.data) }) {
-					return "", steps
-				}
-				starts = append(starts, pc)
-			case 'r':
-				e.AssumeREP(asm.Flags(c.mask))
-			case 's':
-				e.AssumeSEP(asm.Flags(c.mask))
+			if call(em, c) || complaint != "" || dropped {
+				return
 			}
 		}
 	}
-	if e != root {
-		root.Append(e)
-		e = root
+	cur := root
+	for i, o := range p.calls {
+		if p.split > 0 && i == p.split {
+			cur = &acEm{e: root.e.Clone(make([]byte, p.ccap)), cap: p.ccap} // the program is continued in a clone (C16) and appended back below
+		}
+		if o.kind != 'D' {
+			unit(cur, o)
+		} else {
+			// side clones of the emitter in use; at most one of them is appended back, the others are abandoned
+			keep := int(o.addr)
+			upfront := len(o.args) > 0 && o.args[0]&1 == 1
+			arms := make([]*acEm, len(o.sub))
+			mk := func(i int) *acEm {
+				k := acAmple
+				if i+1 == keep && len(o.args) > 1 && o.args[1]&1 == 1 {
+					k = cur.cap - cur.e.Len()
+				}
+				return &acEm{e: cur.e.Clone(make([]byte, k)), cap: k}
+			}
+			if upfront {
+				for i := range arms {
+					arms[i] = mk(i)
+				}
+			}
+			for i, arm := range o.sub {
+				if !upfront {
+					arms[i] = mk(i)
+				}
+				for _, ao := range arm {
+					if i+1 == keep && (ao.kind == 'r' || ao.kind == 's') {
+						continue // an announcement without bytes belongs to clones that are dropped
+					}
+					if ao.kind == 'D' || ((ao.kind == 'L' || ao.kind == 'J') && i+1 != keep) {
+						continue
+					}
+					unit(arms[i], ao)
+				}
+				if i+1 != keep {
+					rep.Count("asm-cpu: clone abandoned")
+				}
+			}
+			if keep > 0 && keep <= len(arms) {
+				k := arms[keep-1]
+				if !safe(func() { cur.e.Append(k.e) }) {
+					cur.starts = append(cur.starts, k.starts...)
+					rep.Count("asm-cpu: one of several clones appended back")
+				}
+			}
+		}
+		if complaint != "" {
+			return complaint, steps
+		}
+		if dropped {
+			return "", steps
+		}
 	}
+	if cur != root {
+		// (a clone that does not fit is refused: the program is then what the original holds)
+		if !safe(func() { root.e.Append(cur.e) }) {
+			root.starts = append(root.starts, cur.starts...)
+		}
+	}
+	e, starts := root.e, root.starts
 	end := e.PC()
 	// label references are patched before the program runs; a program whose references cannot be resolved is not a program
 	var ferr error
@@ -256,7 +367,7 @@ func runProg(p acProg, ms []asmMethod, rep *report.Report) (complaint string, st
 }
 
 func genProg(r *prng.R, ms []asmMethod) acProg {
-	p := acProg{initFlags: uint8(r.N(4)) << 4}
+	p := acProg{initFlags: uint8(r.N(4)) << 4, cap: acAmple, ccap: acAmple}
 	n := 1 + r.N(24)
 	var pool []int
 	for i, m := range ms {
@@ -370,10 +481,252 @@ func directedBranchProgs(ms []asmMethod) []acProg {
 				fwd = append(fwd, imm("LDA_imm8_b", "LDA_imm16_w")...)
 				fwd = append(fwd, asmOp{kind: 'L', label: "t"})
 				fwd = append(fwd, tail...)
-				ps = append(ps, acProg{initFlags: init, calls: fwd})
+				ps = append(ps, acProg{initFlags: init, calls: fwd, cap: acAmple, ccap: acAmple})
 				back := []asmOp{{kind: 'L', label: "t"}, chg, {kind: 'J', m: b, label: "t", args: []uint32{style, 0}}}
 				back = append(back, tail...)
-				ps = append(ps, acProg{initFlags: init, calls: back, split: ci % 3})
+				ps = append(ps, acProg{initFlags: init, calls: back, split: ci % 3, cap: acAmple, ccap: acAmple})
+			}
+		}
+	}
+	return ps
+}
+
+// immediatesOfBothSizes: for both register groups the 8- and the 16-bit form; the width guard lets one of each pair through
+func immediatesOfBothSizes(ms []asmMethod, names ...string) []asmOp {
+	var os []asmOp
+	for _, n := range names {
+		if m := findMethod(ms, n); m != nil {
+			os = append(os, asmOp{kind: 'I', m: m, args: make([]uint32, len(m.widths))})
+		}
+	}
+	return os
+}
+
+// estLen: upper estimate of the bytes a call emits
+func estLen(o asmOp) int {
+	switch o.kind {
+	case 'I':
+		n := 1
+		for _, w := range o.m.widths {
+			switch w {
+			case 0:
+				n += 2
+			case 32:
+				n += 3
+			default:
+				n += w / 8
+			}
+		}
+		return n
+	case 'J':
+		return 5
+	case 'R', 'P':
+		return 2
+	case 'D':
+		n := 0
+		if k := int(o.addr); k > 0 && k <= len(o.sub) {
+			for _, ao := range o.sub[k-1] {
+				n += estLen(ao)
+			}
+		}
+		return n
+	}
+	return 0
+}
+
+// sideClones: one D unit.  Clones that are dropped mostly change widths; the kept one (if any) carries ordinary code.
+func sideClones(r *prng.R, ms []asmMethod, pool []int) asmOp {
+	masks := []uint32{0x10, 0x20, 0x30, 0x30, 0x31, 0xFF & uint32(r.U8())}
+	imms := []string{"LDA_imm8_b", "LDA_imm16_w", "LDX_imm8_b", "LDX_imm16_w", "LDY_imm8_b", "LDY_imm16_w", "CMP_imm8_b", "CMP_imm16_w", "CPY_imm8_b", "AND_imm16_w", "ORA_imm8_b"}
+	nArms := 1 + r.N(3)
+	d := asmOp{kind: 'D', args: []uint32{uint32(r.N(2)), uint32(r.N(2))}}
+	if r.Chance(50) {
+		d.addr = uint32(1 + r.N(nArms))
+	}
+	for a := 0; a < nArms; a++ {
+		kept := int(d.addr) == a+1
+		var arm []asmOp
+		for i := 1 + r.N(4); i > 0; i-- {
+			switch k := r.N(20); {
+			case k < 11 && !kept || k < 4:
+				mask := masks[r.N(len(masks))]
+				kinds := []byte{'I', 'I', 'I', 'R', 'P', 'r', 's'}
+				if kept {
+					kinds = kinds[:5]
+				}
+				switch kd := kinds[r.N(len(kinds))]; kd {
+				case 'I':
+					arm = append(arm, asmOp{kind: 'I', m: findMethod(ms, []string{"REP", "SEP"}[r.N(2)]), args: []uint32{mask}})
+				default:
+					arm = append(arm, asmOp{kind: kd, addr: mask & 0x30})
+				}
+			case k < 16:
+				if m := findMethod(ms, imms[r.N(len(imms))]); m != nil {
+					arm = append(arm, asmOp{kind: 'I', m: m, args: []uint32{uint32(r.U16())}})
+				}
+			default:
+				m := &ms[pool[r.N(len(pool))]]
+				args := make([]uint32, len(m.widths))
+				for j, w := range m.widths {
+					args[j] = r.U32()
+					if w == 32 {
+						args[j] = (args[j] & 0xFFFF) | 0x7E0000
+					}
+				}
+				arm = append(arm, asmOp{kind: 'I', m: m, args: args})
+			}
+		}
+		d.sub = append(d.sub, arm)
+	}
+	return d
+}
+
+// genProg2: a program of genProg in which clones are taken and abandoned on the way (kind&1) and / or whose targets are so
+// small that they fill up somewhere in the middle (kind&2)
+func genProg2(r *prng.R, ms []asmMethod, kind int) acProg {
+	p := genProg(r.Fork(), ms)
+	var pool []int
+	for i, m := range ms {
+		if !notStraight[m.name] && !(len(m.widths) == 1 && m.widths[0] == 0) {
+			pool = append(pool, i)
+		}
+	}
+	insert := func(at int, os ...asmOp) {
+		p.calls = append(p.calls[:at:at], append(append([]asmOp{}, os...), p.calls[at:]...)...)
+		if p.split > 0 && at < p.split {
+			p.split += len(os)
+		}
+	}
+	if kind&1 != 0 {
+		for k := 1 + r.N(3); k > 0; k-- {
+			at := r.N(len(p.calls) + 1)
+			os := []asmOp{sideClones(r, ms, pool)}
+			if r.Chance(60) {
+				// immediates right behind: whichever width the assembler tracks now decides which of each pair it lets through
+				os = append(os, immediatesOfBothSizes(ms, [][]string{{"LDA_imm8_b", "LDA_imm16_w"}, {"LDX_imm8_b", "LDX_imm16_w"}, {"LDY_imm16_w", "LDY_imm8_b", "CMP_imm16_w", "CMP_imm8_b"}}[r.N(3)]...)...)
+			}
+			insert(at, os...)
+		}
+	}
+	if kind&2 != 0 {
+		if r.Chance(60) {
+			// something short to go on with once a longer call has been refused
+			for k := 1 + r.N(4); k > 0; k-- {
+				if m := findMethod(ms, []string{"NOP", "DEX", "DEY", "CLC", "XBA", "LDA_dp", "TAX"}[r.N(7)]); m != nil {
+					p.calls = append(p.calls, asmOp{kind: 'I', m: m, args: make([]uint32, len(m.widths))})
+				}
+			}
+		}
+		est, estTail := 0, 0
+		for i, o := range p.calls {
+			est += estLen(o)
+			if p.split > 0 && i >= p.split {
+				estTail += estLen(o)
+			}
+		}
+		p.cap = r.N(est + 2)
+		if p.split > 0 {
+			p.ccap = []int{acAmple, r.N(estTail + 2), r.N(estTail + 2), 1 + r.N(4)}[r.N(4)]
+		}
+	}
+	return p
+}
+
+// abandonedCloneProgs (directed): a clone changes the tracked widths in every way there is and is dropped; a second and a third
+// clone of the same original are taken before or after; the program goes on in the original with immediates of both sizes
+func abandonedCloneProgs(ms []asmMethod) []acProg {
+	rep, sep, nop := findMethod(ms, "REP"), findMethod(ms, "SEP"), findMethod(ms, "NOP")
+	if rep == nil || sep == nil || nop == nil {
+		return nil
+	}
+	var chgs []asmOp
+	for _, mask := range []uint32{0x30, 0x20, 0x10} {
+		chgs = append(chgs, asmOp{kind: 'I', m: rep, args: []uint32{mask}}, asmOp{kind: 'I', m: sep, args: []uint32{mask}},
+			asmOp{kind: 'R', addr: mask}, asmOp{kind: 'P', addr: mask}, asmOp{kind: 'r', addr: mask}, asmOp{kind: 's', addr: mask})
+	}
+	tail := append(immediatesOfBothSizes(ms, "LDA_imm8_b", "LDA_imm16_w", "LDX_imm8_b", "LDX_imm16_w", "CPY_imm8_b", "LDY_imm16_w"), asmOp{kind: 'I', m: nop})
+	one := asmOp{kind: 'I', m: nop}
+	code := append([]asmOp{one}, immediatesOfBothSizes(ms, "LDA_imm8_b", "LDA_imm16_w", "LDX_imm16_w", "LDX_imm8_b")...)
+	var ps []acProg
+	for _, init := range []uint8{0x00, 0x30, 0x10, 0x20} {
+		for ci, chg := range chgs {
+			chg2 := chgs[(ci+7)%len(chgs)]
+			for _, up := range []uint32{0, 1} {
+				shapes := [][]asmOp{
+					{one, {kind: 'D', addr: 0, args: []uint32{up, 0}, sub: [][]asmOp{{chg}}}},               // changed and dropped
+					{one, {kind: 'D', addr: 2, args: []uint32{up, 0}, sub: [][]asmOp{{chg}, code}}},         // the second clone of the same original is kept
+					{{kind: 'D', addr: 1, args: []uint32{up, 0}, sub: [][]asmOp{code, {chg}, {chg2, one}}}}, // the first is kept, two more are dropped
+					{one, {kind: 'D', addr: 3, args: []uint32{up, 1}, sub: [][]asmOp{{chg}, {chg2}, code}}}, // the third is kept
+					{{kind: 'D', addr: 0, args: []uint32{up, 0}, sub: [][]asmOp{{chg, chg2}}}, one, {kind: 'D', addr: 0, args: []uint32{up, 0}, sub: [][]asmOp{{chg2}}}},
+				}
+				for si, sh := range shapes {
+					if up == 1 && len(sh[len(sh)-1].sub) < 2 && si != 4 {
+						continue // one clone: nothing to take beforehand
+					}
+					calls := append(append([]asmOp{}, sh...), tail...)
+					ps = append(ps, acProg{initFlags: init, calls: calls, cap: acAmple, ccap: acAmple})
+					if si < 2 {
+						// the same inside a program that is itself continued in a clone
+						ps = append(ps, acProg{initFlags: init, calls: append([]asmOp{one}, calls...), split: 1, cap: acAmple, ccap: acAmple})
+					}
+				}
+			}
+		}
+	}
+	return ps
+}
+
+// fullTargetProgs (directed): the target fills up in the middle of the program: a call of 1..4 bytes meets 0..3 bytes of room and
+// is refused, shorter calls that still fit follow until the target is full, one more is refused; in the original, in a clone
+// the program is continued in, and in a side clone that is appended back
+func fullTargetProgs(ms []asmMethod) []acProg {
+	nop, dex := findMethod(ms, "NOP"), findMethod(ms, "DEX")
+	if nop == nil || dex == nil {
+		return nil
+	}
+	ins := func(n string, a ...uint32) asmOp {
+		m := findMethod(ms, n)
+		if m == nil {
+			m = nop
+			a = nil
+		}
+		return asmOp{kind: 'I', m: m, args: a}
+	}
+	type victim struct {
+		op  asmOp
+		len int
+	}
+	var vs []victim
+	vs = append(vs, victim{ins("LDA_dp", 0x12), 2}, victim{ins("WDM", 0x42), 2}, victim{asmOp{kind: 'R', addr: 0x00}, 2},
+		victim{ins("LDA_abs", 0x1234), 3}, victim{ins("STA_abs_x", 0x1234), 3}, victim{ins("LDA_long", 0x7E1234), 4}, victim{ins("CMP_long", 0x7E1234), 4}, victim{ins("NOP"), 1})
+	if b := findMethod(ms, "BNE"); b != nil {
+		vs = append(vs, victim{asmOp{kind: 'J', m: b, label: "t", args: []uint32{1, 0}}, 2})
+	}
+	var ps []acProg
+	for _, init := range []uint8{0x00, 0x30} {
+		for _, v := range vs {
+			for room := v.len - 1; room >= 0; room-- {
+				for _, fill := range []int{1, 5, 0} {
+					var calls []asmOp
+					for i := 0; i < fill; i++ {
+						calls = append(calls, asmOp{kind: 'I', m: []*asmMethod{nop, dex}[i%2]})
+					}
+					body := []asmOp{v.op}
+					for i := 0; i <= room; i++ {
+						body = append(body, asmOp{kind: 'I', m: []*asmMethod{dex, nop}[i%2]})
+					}
+					body = append(body, ins("LDA_abs", 0x4321), asmOp{kind: 'L', label: "t"})
+					all := append(append([]asmOp{}, calls...), body...)
+					ps = append(ps, acProg{initFlags: init, calls: all, cap: fill + room, ccap: acAmple})
+					if fill > 0 {
+						// the program is continued in a clone whose target fills up; the original has room for what the clone took
+						ps = append(ps, acProg{initFlags: init, calls: all, split: fill, cap: acAmple, ccap: room})
+						ps = append(ps, acProg{initFlags: init, calls: all, split: fill, cap: fill + room, ccap: room})
+						// ... in a side clone with exactly the room the original has left
+						side := append(append([]asmOp{}, calls...), asmOp{kind: 'D', addr: 1, args: []uint32{0, 1}, sub: [][]asmOp{body[:len(body)-1]}}, ins("NOP"), asmOp{kind: 'L', label: "t"})
+						ps = append(ps, acProg{initFlags: init, calls: side, cap: fill + room, ccap: acAmple})
+					}
+				}
 			}
 		}
 	}
@@ -393,6 +746,15 @@ func runAsmCPU() {
 	nFound := 0 // at most 20 (shrunk) failing programs are reported
 	progs := directedBranchProgs(ms)
 	rep.CountN("directed programs (fall-through branch, width change, label)", int64(len(progs)))
+	ab := abandonedCloneProgs(ms)
+	rep.CountN("directed programs (clones that change widths and are abandoned, second and third clones of one original)", int64(len(ab)))
+	ft := fullTargetProgs(ms)
+	rep.CountN("directed programs (target fills up mid-program, shorter calls follow a refusal)", int64(len(ft)))
+	progs = append(append(progs, ab...), ft...)
+	r2 := prng.New(seed ^ 0xC10E5)
+	for i := 0; i < n/2; i++ {
+		progs = append(progs, genProg2(r2.Fork(), ms, 1+i%3))
+	}
 	for i := 0; i < n; i++ {
 		progs = append(progs, genProg(r.Fork(), ms))
 	}
@@ -407,6 +769,8 @@ func runAsmCPU() {
 				sh += string(o.kind)
 			}
 			switch o.kind {
+			case 'D':
+				rep.Count("op: side clones (D)")
 			case 'J':
 				rep.Count("op: fall-through branch to a label")
 			case 'L':
@@ -415,17 +779,38 @@ func runAsmCPU() {
 				rep.Count("op: raw REP/SEP bytes + AssumeREP/AssumeSEP")
 			}
 		}
+		if p.cap < acAmple {
+			rep.Count("programs with a target that may fill up")
+		}
 		distinct[sh] = true
 		if i%800 == 0 {
 			rep.Sample(p.String())
 		}
 		if msg != "" && nFound < 20 {
 			nFound++
+			// a shrunk program must fail the same clause (a fetch at an address that was not reported stays one)
+			class := func(m string) string {
+				for _, k := range []string{"CPU fetches at", "after the last instruction", "final widths differ", "was accepted", "was refused", "panic"} {
+					if strings.Contains(m, k) {
+						return k
+					}
+				}
+				return m
+			}
+			want := class(msg)
+			runProg := func(q acProg, ms []asmMethod, rep *report.Report) (string, int) {
+				m, n := runProg(q, ms, rep)
+				if m != "" && class(m) != want {
+					return "", n
+				}
+				return m, n
+			}
 			// shrink: drop calls while the complaint persists
 			for changed := true; changed; {
 				changed = false
 				for k := 0; k < len(p.calls); k++ {
-					q := acProg{p.initFlags, append(append([]asmOp{}, p.calls[:k]...), p.calls[k+1:]...), nil, p.split}
+					q := p
+					q.calls = append(append([]asmOp{}, p.calls[:k]...), p.calls[k+1:]...)
 					if q.split > k {
 						q.split--
 					}
@@ -437,6 +822,45 @@ func runAsmCPU() {
 						k--
 					}
 				}
+				// inside the side-clone units: drop whole clones (not the one that is appended back), then single calls
+				tryD := func() bool {
+					for k := range p.calls {
+						d0 := p.calls[k]
+						if d0.kind != 'D' {
+							continue
+						}
+						var cands []asmOp
+						for a := range d0.sub {
+							if int(d0.addr) != a+1 {
+								d := d0
+								d.sub = append(append([][]asmOp{}, d0.sub[:a]...), d0.sub[a+1:]...)
+								if int(d.addr) > a+1 {
+									d.addr--
+								}
+								cands = append(cands, d)
+							}
+							for j := range d0.sub[a] {
+								d := d0
+								d.sub = append([][]asmOp{}, d0.sub...)
+								d.sub[a] = append(append([]asmOp{}, d0.sub[a][:j]...), d0.sub[a][j+1:]...)
+								cands = append(cands, d)
+							}
+						}
+						for _, d := range cands {
+							q := p
+							q.calls = append([]asmOp{}, p.calls...)
+							q.calls[k] = d
+							if m2, _ := runProg(q, ms, rep); m2 != "" {
+								p, msg = q, m2
+								return true
+							}
+						}
+					}
+					return false
+				}
+				for tryD() {
+					changed = true
+				}
 			}
 			rep.Add(report.Finding{Property: "C07", Kind: "violation", Clause: "CPU fetches opcodes exactly at the assembler's instruction starts and ends with the tracked widths; an immediate is refused exactly when its size disagrees with the tracked width: " + msg, Input: p.String()})
 		}
@@ -445,6 +869,9 @@ func runAsmCPU() {
 	rep.Distinct = int64(len(distinct))
 	rep.CountN("programs", int64(len(progs)))
 	rep.Rule = "directed: every conditional label branch falling through, forward and backward, with a REP/SEP/AssumeREP/AssumeSEP width change between branch and label, immediates of both sizes behind it; " +
+		"directed: a clone changes the tracked widths (REP / SEP / raw bytes + AssumeREP / AssumeSEP / the announcement alone) and is abandoned, second and third clones of one original taken before or after, " +
+		"the program goes on in the original with immediates of both sizes; directed: targets (of the original, of the clone the program is continued in, of a side clone) that fill up mid-program - a call of 1..4 bytes " +
+		"meets 0..3 bytes of room and is refused, shorter calls follow until the target is full; random: programs as below with 1..3 units of 1..3 side clones (half of the units keep one clone) and / or targets of 0..estimated size bytes; " +
 		"random programs of 1..24 calls (a quarter of them continued in a Clone and appended back) over every non-transferring instruction method (by reflection) with REP/SEP interleavings, raw REP/SEP bytes announced by AssumeREP/AssumeSEP, " +
 		"up to 3 labels referenced forward / backward / several times by conditional branches that are not taken at run time (the tested flag is set the other way by the unit's own REP/SEP/CLC/CMP/load immediate), all four initial width assumptions, " +
 		"assembled by the real Emitter at $C0:8000, finalized, and single-stepped on both real CPUs (whole bus mapped); compared: PC before every Step with the recorded PC(), final M/X with IsM16bit/IsX16bit, " +
